@@ -292,3 +292,144 @@ Proof.
          [Reply 334 (bs "VXNlcm5hbWU6"); Reply 334 (bs "UGFzc3dvcmQ6"); Reply 235 (bs "ok")].
   vm_compute. discriminate.
 Qed.
+
+(* ---- two runs of the Auth loop from related mechanism states ---- *)
+Lemma obs_abort : forall S active name res (s1 s2 : S) script o,
+  obs_of (abort_path active name res s1 script o) = obs_of (abort_path active name res s2 script o).
+Proof. intros. unfold abort_path. destruct (is_xoauth2 name); reflexivity. Qed.
+
+Lemma abort_state : forall S active name res (s : S) script o, f_state (abort_path active name res s script o) = s.
+Proof. intros. unfold abort_path. destruct (is_xoauth2 name); reflexivity. Qed.
+
+Section Sim.
+  Variable S : Type.
+  Variable m : mech S.
+  Variables R W : S -> S -> Prop.
+  Hypothesis RW : forall a b, R a b -> W a b.
+  Hypothesis Step : forall s1 s2 msg more, R s1 s2 ->
+    snd (m_next m s1 msg more) = snd (m_next m s2 msg more) /\
+    W (fst (m_next m s1 msg more)) (fst (m_next m s2 msg more)) /\
+    (forall resp, snd (m_next m s1 msg more) = Some (Some resp) -> R (fst (m_next m s1 msg more)) (fst (m_next m s2 msg more))).
+
+  Lemma auth_loop_sim : forall rest active name s1 s2 code msg64 o, R s1 s2 ->
+    obs_of (auth_loop m active name s1 code msg64 rest o) = obs_of (auth_loop m active name s2 code msg64 rest o) /\
+    W (f_state (auth_loop m active name s1 code msg64 rest o)) (f_state (auth_loop m active name s2 code msg64 rest o)).
+  Proof.
+    induction rest as [|r rest IH]; intros active name s1 s2 code msg64 o Rs; simpl.
+    all: destruct (code =? code_challenge);
+      [ destruct (b64dec (filter no_crlf_byte msg64)) as [dm|];
+        [ destruct (Step s1 s2 dm true Rs) as (E & Ws & Rn)
+        | split; [apply obs_abort | rewrite !abort_state; auto] ]
+      | destruct (code =? code_success);
+        [ destruct (Step s1 s2 msg64 false Rs) as (E & Ws & Rn)
+        | split; [apply obs_abort | rewrite !abort_state; auto] ] ].
+    all: match goal with
+         | _ : snd (m_next m ?x1 ?mm ?b) = snd (m_next m ?x2 ?mm ?b) |- _ =>
+             destruct (m_next m x1 mm b) as [s1' o1]; destruct (m_next m x2 mm b) as [s2' o2]
+         end; simpl in E, Ws, Rn; subst o2; destruct o1 as [[resp|]|]; simpl.
+    all: try (split; [apply obs_abort | rewrite !abort_state; auto]).
+    all: try (split; [reflexivity|auto]).
+    all: destruct r as [c mm|]; simpl; try (split; [reflexivity|auto]).
+    all: apply IH; apply (Rn _ eq_refl).
+  Qed.
+End Sim.
+
+(* ---- SCRAM: the cached bindData field of a reused value is irrelevant ----
+   In the source, bindData is assigned in initialClientMessage (from the tlsConnState given to the constructor) each time
+   a -PLUS client-first-message is built, and read only in handleServerFirstResponse of a -PLUS mechanism, which needs a
+   non-empty nonce, i.e. a client-first of the running exchange: the value read is always the one just derived. *)
+Lemma gen_nonce_check' : forall a b, Gen.scram_nonce_check a b = a || negb b.
+Proof. reflexivity. Qed.
+
+Definition same_but_bind (a b : scram_state) : Prop :=
+  ss_bare a = ss_bare b /\ ss_nonce a = ss_nonce b /\ ss_salted a = ss_salted b /\ ss_authmsg a = ss_authmsg b /\
+  ss_iter a = ss_iter b /\ ss_verified a = ss_verified b.
+
+Definition Rbind (id : scram_id) (s1 s2 : scram_state * list bytes) : Prop :=
+  snd s1 = snd s2 /\ same_but_bind (fst s1) (fst s2) /\
+  (sid_plus id = true -> is_nil (ss_nonce (fst s1)) = false -> ss_bind (fst s1) = ss_bind (fst s2)).
+
+Lemma scram_step_bind : forall H HMAC hsize precis cfg id s1 s2 msg more, Rbind id s1 s2 ->
+  let n1 := scram_next H HMAC hsize precis cfg id s1 msg more in
+  let n2 := scram_next H HMAC hsize precis cfg id s2 msg more in
+  snd n1 = snd n2 /\ snd (fst n1) = snd (fst n2) /\
+  (forall resp, snd n1 = Some (Some resp) -> Rbind id (fst n1) (fst n2)).
+Proof.
+  intros H HMAC hsize precis cfg id [[b n sa am it bd1 v] rs] [[b' n' sa' am' it' bd2 v'] rs'] msg more
+         (Er & (E1 & E2 & E3 & E4 & E5 & E6) & HB). simpl in *. subst b' n' sa' am' it' v' rs'.
+  unfold scram_next. cbn [fst snd ss_nonce ss_verified].
+  destruct more.
+  - destruct msg as [|m0 msg'].
+    + unfold initial_client_message. cbn [ss_reset ss_salted ss_authmsg ss_iter ss_bind ss_verified].
+      destruct (restart_resets cfg); cbn [ss_reset ss_salted ss_authmsg ss_iter ss_bind ss_verified];
+      destruct (precis (escape_name (sid_user id))); destruct rs as [|r0 rs]; simpl;
+      try (repeat split; auto; intros; discriminate).
+      all: destruct (sid_plus id) eqn:P; [destruct (sid_tls id) as [ti|]; [destruct (cb_select ti) as [[bt d]|]|]|]; simpl.
+      all: repeat split; auto; intros; try discriminate; try congruence.
+    + remember (m0 :: msg') as mm eqn:EM. clear EM.
+      destruct (is_prefix (bs "r=") mm).
+      * unfold handle_server_first. cbn [ss_nonce ss_bare ss_bind].
+        destruct (sf_parse mm) as [[[cmb salt] it2]|]; [|simpl; repeat split; auto; intros; discriminate].
+        rewrite gen_nonce_check'.
+        destruct (is_nil n) eqn:NN; [simpl; repeat split; auto; intros; discriminate|].
+        destruct (is_prefix n cmb); [|simpl; repeat split; auto; intros; discriminate]. cbn [orb negb].
+        destruct (precis (sid_pass id)); [|simpl; repeat split; auto; intros; discriminate].
+        unfold msg_without_proof. cbn [ss_bind].
+        destruct (sid_plus id) eqn:P.
+        -- rewrite (HB eq_refl eq_refl). simpl. repeat split; auto.
+        -- simpl. repeat split; auto; intros; congruence.
+      * destruct (is_prefix (bs "v=") mm); [|simpl; repeat split; auto; intros; discriminate].
+        unfold handle_server_final. cbn [ss_salted ss_authmsg ss_nonce ss_bare ss_iter ss_bind].
+        destruct (final_requires_first cfg && (is_nil sa || is_nil am)); [simpl; repeat split; auto; intros; discriminate|].
+        destruct (bytes_eqb (skipn 2 mm) (server_sig HMAC sa am)); simpl; repeat split; auto; intros; discriminate.
+  - destruct (done_requires_verified cfg && negb (is_nil n) && negb v); simpl; repeat split; auto; intros; discriminate.
+Qed.
+
+(* a call of Auth on a scramAuth value in ANY state is, in everything observable (result, lines written, log), the call
+   on a fresh value; and so is every later call on it *)
+Lemma obs_deferred : forall S lad (f1 f2 : final S), obs_of f1 = obs_of f2 -> obs_of (deferred lad f1) = obs_of (deferred lad f2).
+Proof.
+  intros S lad f1 f2 E. unfold obs_of, deferred in *. cbn [f_res f_out f_active f_closed] in *.
+  inversion E as [[X1 X2 X3 X4 X5]]. rewrite X1, X3, X4, X5.
+  destruct (Gen.smtp_auth_deactivation_deferred); destruct lad; try reflexivity; rewrite X2; reflexivity.
+Qed.
+
+Lemma scram_obs_independent_of_history : forall H HMAC hsize precis cfg id lad a0 st st' rands script,
+  start_resets cfg = true ->
+  let M := scram_mech H HMAC hsize precis cfg id in
+  obs_of (auth M lad a0 (st, rands) script) = obs_of (auth M lad a0 (st', rands) script) /\
+  snd (f_state (auth M lad a0 (st, rands) script)) = snd (f_state (auth M lad a0 (st', rands) script)).
+Proof.
+  intros H HMAC hsize precis cfg id lad a0 st st' rands script SR M.
+  assert (MS : forall x, m_start M (x, rands) = ((ss_reset x, rands), Some (sid_algo id, None))).
+  { intros x. unfold M, scram_mech, scram_start. cbn [m_start fst snd]. rewrite SR. reflexivity. }
+  unfold auth. rewrite !MS.
+  assert (R0 : Rbind id (ss_reset st, rands) (ss_reset st', rands)).
+  { split; [reflexivity|]. split; [repeat split|]. intros _ X. discriminate. }
+  destruct script as [|[c mm|] rest]; try (split; reflexivity).
+  assert (ST : forall s1 s2 msg more, Rbind id s1 s2 ->
+    snd (m_next M s1 msg more) = snd (m_next M s2 msg more) /\
+    snd (fst (m_next M s1 msg more)) = snd (fst (m_next M s2 msg more)) /\
+    (forall resp, snd (m_next M s1 msg more) = Some (Some resp) ->
+       Rbind id (fst (m_next M s1 msg more)) (fst (m_next M s2 msg more)))).
+  { intros s1 s2 msg more HR. exact (scram_step_bind H HMAC hsize precis cfg id s1 s2 msg more HR). }
+  match goal with |- context [auth_loop M ?act ?nm (ss_reset st, rands) ?cc ?m6 ?rs ?oo] =>
+    destruct (auth_loop_sim _ M (Rbind id) (fun a b => snd a = snd b) (fun a b (r : Rbind id a b) => proj1 r) ST
+                rs act nm (ss_reset st, rands) (ss_reset st', rands) cc m6 oo R0) as [EO ES] end.
+  split; [|exact ES].
+  apply obs_deferred. exact EO.
+Qed.
+
+Lemma scram_reuse_is_fresh : forall H HMAC hsize precis cfg id lad st rands scripts,
+  start_resets cfg = true ->
+  auth_seq (scram_mech H HMAC hsize precis cfg id) lad (st, rands) scripts =
+  auth_seq (scram_mech H HMAC hsize precis cfg id) lad (ss_zero, rands) scripts.
+Proof.
+  intros H HMAC hsize precis cfg id lad st rands scripts SR. revert st rands. generalize ss_zero as st'.
+  induction scripts as [|sc rest IH]; intros st' st rands; [reflexivity|]. cbn [auth_seq].
+  destruct (scram_obs_independent_of_history H HMAC hsize precis cfg id lad false st st' rands sc SR) as [EO ES].
+  cbv zeta in EO, ES. rewrite EO. f_equal.
+  destruct (f_state (auth (scram_mech H HMAC hsize precis cfg id) lad false (st, rands) sc)) as [sa ra].
+  destruct (f_state (auth (scram_mech H HMAC hsize precis cfg id) lad false (st', rands) sc)) as [sb rb].
+  cbn [snd] in ES. subst rb. apply IH.
+Qed.
